@@ -217,9 +217,13 @@ class DrawCircuitMPL:
             color="white",
             size=8,
         )
-        # A phase which is not a finite number is shown as it is
-        if not isinstance(phi, str) and not np.isfinite(phi):
-            phi = str(phi)
+        # A phase which has no nearest multiple of pi/4 (not a finite number, or
+        # too large to divide) is shown as it is
+        if not isinstance(phi, str):
+            try:
+                int(np.round(phi / (np.pi / 4)))
+            except (TypeError, ValueError, OverflowError):
+                phi = str(phi)
         # Work out value of n*pi/4 closest to phi
         if not isinstance(phi, str):
             n = int(np.round(phi / (np.pi / 4)))
